@@ -413,6 +413,161 @@ def gen_flat_cons(rng):
     return case
 
 
+def gen_cross(rng, cycles=True):
+    """G-cross: 2-4 choices (on one origin or on a few), whose option nodes and a few intermediate nodes derive each other
+    across choices (diamonds, nested derivation cycles), with nested choices on some of the derived nodes"""
+    nid = [0]
+
+    def new():
+        nid[0] += 1
+        return nid[0]
+    edges, sel_raw = [], []
+    one_origin = rng.random() < 0.6
+    n_ch = rng.randint(2, 4)
+    pool = []
+    for _ in range(n_ch):
+        if one_origin:
+            org = 0
+        else:
+            org = new()
+            edges.append([0, org])
+        opts = [new() for _ in range(rng.choice([2, 2, 3]))]
+        sel_raw.append((org, opts))
+        pool += opts
+    mids = [new() for _ in range(rng.randint(1, 4))]
+    pool += mids
+    order = list(pool)
+    rng.shuffle(order)
+    rank = {x: k for k, x in enumerate(order)}
+    allow_cycles = cycles and rng.random() < 0.5
+    for _ in range(rng.randint(3, 9)):
+        a, b = rng.sample(pool, 2)
+        if not allow_cycles and rank[a] > rank[b]:
+            a, b = b, a
+        if [a, b] not in edges:
+            edges.append([a, b])
+    for host in rng.sample(pool, rng.randint(1, min(2, len(pool)))):
+        sel_raw.append((host, [new() for _ in range(rng.choice([1, 2, 2]))]))
+    n = nid[0] + 1
+    sel = [{'id': n + k, 'origin': org, 'options': opts} for k, (org, opts) in enumerate(sel_raw)]
+    case = {'n': n, 'edges': edges, 'sel': sel, 'start': [0], 'incompat': [], 'cons': []}
+    if rng.random() < 0.2:
+        a, b = rng.sample(range(1, n), 2)
+        if not self_conflicting_option(dict(case, incompat=[[a, b]])):
+            case['incompat'] = [[a, b]]
+    if rng.random() < 0.5:
+        case['order'] = rng.randrange(1 << 30)
+    return case
+
+
+def gen_fanin(rng):
+    """G-fanin: an option node (hub) fans out over 2-3 arms that join again; the join and some of the arms are themselves
+    option nodes of other choices, and a nested choice sits below the join -- so a node is reached along several paths,
+    some of which were analysed (and cached) earlier on behalf of another choice"""
+    nid = [0]
+
+    def new():
+        nid[0] += 1
+        return nid[0]
+    edges, sel_raw = [], []
+    one_origin = rng.random() < 0.5
+    n_ch = rng.randint(2, 4)
+    opts_of = []
+    for _ in range(n_ch):
+        if one_origin:
+            org = 0
+        else:
+            org = new()
+            edges.append([0, org])
+        opts = [new() for _ in range(rng.choice([2, 2, 3]))]
+        sel_raw.append((org, opts))
+        opts_of.append(opts)
+    ci = rng.randrange(n_ch)
+    hub = rng.choice(opts_of[ci])
+    foreign = [o for cj, opts in enumerate(opts_of) if cj != ci for o in opts]
+    rng.shuffle(foreign)
+    join = foreign.pop() if rng.random() < 0.7 else new()
+    arms = []
+    for _ in range(rng.randint(2, 3)):
+        arms.append(foreign.pop() if foreign and rng.random() < 0.45 else new())
+    for a in arms:
+        edges.append([hub, a])
+        if rng.random() < 0.25:
+            m = new()
+            edges += [[a, m], [m, join]]
+        else:
+            edges.append([a, join])
+    below = join
+    if rng.random() < 0.5:
+        below = new()
+        edges.append([join, below])
+    sel_raw.append((below, [new() for _ in range(rng.choice([1, 2, 2]))]))
+    if rng.random() < 0.3:
+        # close a derivation cycle through the join
+        edges.append([below, rng.choice(arms + [hub])])
+    for _ in range(rng.choice([0, 0, 1, 2])):
+        a, b = rng.sample(range(1, nid[0] + 1), 2)
+        if [a, b] not in edges:
+            edges.append([a, b])
+    n = nid[0] + 1
+    sel = [{'id': n + k, 'origin': org, 'options': opts} for k, (org, opts) in enumerate(sel_raw)]
+    case = {'n': n, 'edges': edges, 'sel': sel, 'start': [0], 'incompat': [], 'cons': []}
+    if rng.random() < 0.5:
+        case['order'] = rng.randrange(1 << 30)
+    return case
+
+
+def gen_cycles(rng):
+    """G-cycles: nested derivation cycles (a ring with chords, some through an extra node) below an option node; one ring
+    node may itself be an option of another choice; nested choices hang off ring nodes"""
+    nid = [0]
+
+    def new():
+        nid[0] += 1
+        return nid[0]
+    edges, sel_raw = [], []
+    one_origin = rng.random() < 0.6
+    opts_of = []
+    for _ in range(2):
+        if one_origin:
+            org = 0
+        else:
+            org = new()
+            edges.append([0, org])
+        opts = [new() for _ in range(rng.choice([2, 2, 3]))]
+        sel_raw.append((org, opts))
+        opts_of.append(opts)
+    k = rng.randint(2, 4)
+    ring = [new() for _ in range(k)]
+    if rng.random() < 0.7:
+        ring[rng.randrange(1, k)] = opts_of[1][0]           # a ring node that is also an option of the second choice
+    edges.append([opts_of[0][0], ring[0]])
+    for i in range(k):
+        edges.append([ring[i], ring[(i + 1) % k]])
+    extra = []
+    for _ in range(rng.randint(1, 2)):
+        i = rng.randrange(k)
+        j = rng.randrange(k)
+        if rng.random() < 0.6:
+            z = new()
+            extra.append(z)
+            edges += [[ring[i], z], [z, ring[j]]]
+        elif i != j and [ring[i], ring[j]] not in edges:
+            edges.append([ring[i], ring[j]])
+    for host in rng.sample(ring + extra, rng.randint(1, min(2, len(ring + extra)))):
+        t = host
+        if rng.random() < 0.6:
+            t = new()
+            edges.append([host, t])
+        sel_raw.append((t, [new() for _ in range(rng.choice([1, 2, 2]))]))
+    n = nid[0] + 1
+    sel = [{'id': n + kk, 'origin': org, 'options': opts} for kk, (org, opts) in enumerate(sel_raw)]
+    case = {'n': n, 'edges': edges, 'sel': sel, 'start': [0], 'incompat': [], 'cons': []}
+    if rng.random() < 0.5:
+        case['order'] = rng.randrange(1 << 30)
+    return case
+
+
 def gen_diamond(rng):
     """G-diamond: fan-out / fan-in derivations below option nodes, some of whose members have a second deriver"""
     nid = [0]
